@@ -569,6 +569,8 @@ func (sc *c13Scope) calls(match func(fn *ssa.Function, call *ssa.Call, callee *s
 // Module callees and local closures are inlined; local struct variables and struct values
 // (field address, field load/store, struct copy) are modelled field by field; slices.IndexFunc /
 // Index / ContainsFunc / Contains run their predicate closure over the abstract list.
+// Local arrays (also of structs) are modelled slot by slot: element address, element load,
+// slicing, range loops; aggregates are copied on load and store.
 
 type c13V interface{}
 
@@ -602,6 +604,10 @@ type (
 	// a struct value (fields by index) and a pointer to a local struct variable
 	c13StructV   struct{ F []c13V }
 	c13StructPtr struct{ Back *[]c13V }
+	// an array value and a pointer to a local array variable; elements (also struct values) live
+	// in the slots, loads and stores of aggregates copy
+	c13ArrV   struct{ E []c13V }
+	c13ArrPtr struct{ Back *[]c13V }
 )
 
 type c13Stop struct{ Kind, Why string } // Kind: panic | unsupported
@@ -656,7 +662,33 @@ func c13Zero(t types.Type) c13V {
 		}
 		return c13StructV{F: f}
 	}
+	if at, ok := t.Underlying().(*types.Array); ok && at.Len() <= 64 {
+		e := make([]c13V, int(at.Len()))
+		for i := range e {
+			e[i] = c13Zero(at.Elem())
+		}
+		return c13ArrV{E: e}
+	}
 	return c13NilV{}
+}
+
+// c13Copy: aggregates have value semantics.
+func c13Copy(v c13V) c13V {
+	switch x := v.(type) {
+	case c13StructV:
+		f := make([]c13V, len(x.F))
+		for i := range f {
+			f[i] = c13Copy(x.F[i])
+		}
+		return c13StructV{F: f}
+	case c13ArrV:
+		e := make([]c13V, len(x.E))
+		for i := range e {
+			e[i] = c13Copy(x.E[i])
+		}
+		return c13ArrV{E: e}
+	}
+	return v
 }
 
 func (ip *c13Interp) val(vals map[ssa.Value]c13V, v ssa.Value) c13V {
@@ -769,13 +801,23 @@ blocks:
 			case *ssa.Store:
 				switch addr := ip.val(vals, x.Addr).(type) {
 				case c13Cell:
-					(*addr.Back)[addr.I] = ip.val(vals, x.Val)
+					(*addr.Back)[addr.I] = c13Copy(ip.val(vals, x.Val))
+				case c13ArrPtr:
+					av, ok := ip.val(vals, x.Val).(c13ArrV)
+					if !ok || len(av.E) != len(*addr.Back) {
+						ip.stop("unsupported", "store of a non-array value into an array variable in %s", fnName(fn))
+					}
+					for i := range av.E {
+						(*addr.Back)[i] = c13Copy(av.E[i])
+					}
 				case c13StructPtr:
 					sv, ok := ip.val(vals, x.Val).(c13StructV)
 					if !ok || len(sv.F) != len(*addr.Back) {
 						ip.stop("unsupported", "store of a non-struct value into a struct variable in %s", fnName(fn))
 					}
-					copy(*addr.Back, sv.F)
+					for i := range sv.F {
+						(*addr.Back)[i] = c13Copy(sv.F[i])
+					}
 				default:
 					ip.stop("unsupported", "store through an unknown address in %s", fnName(fn))
 				}
@@ -813,17 +855,36 @@ func (ip *c13Interp) eval(vals map[ssa.Value]c13V, v ssa.Value) c13V {
 		if sv, ok := z.(c13StructV); ok {
 			return c13StructPtr{Back: &sv.F}
 		}
+		if av, ok := z.(c13ArrV); ok {
+			return c13ArrPtr{Back: &av.E}
+		}
 		back := []c13V{z}
 		return c13Cell{Back: &back, I: 0}
 	case *ssa.FieldAddr:
-		sp, ok := ip.val(vals, x.X).(c13StructPtr)
-		if !ok || x.Field >= len(*sp.Back) {
+		var fields *[]c13V
+		switch p := ip.val(vals, x.X).(type) {
+		case c13StructPtr:
+			fields = p.Back
+		case c13Cell:
+			// pointer to a struct stored in a slot (array element, nested field): its fields share storage
+			if sv, ok := (*p.Back)[p.I].(c13StructV); ok {
+				fields = &sv.F
+			}
+		}
+		if fields == nil || x.Field >= len(*fields) {
 			ip.stop("unsupported", "field of something that is not a local struct variable")
 		}
-		if _, nested := (*sp.Back)[x.Field].(c13StructV); nested {
-			ip.stop("unsupported", "nested struct field")
+		return c13Cell{Back: fields, I: x.Field}
+	case *ssa.Index:
+		av, ok := ip.val(vals, x.X).(c13ArrV)
+		idx, ok2 := ip.val(vals, x.Index).(c13Int)
+		if !ok || !ok2 {
+			ip.stop("unsupported", "indexing %T", ip.val(vals, x.X))
 		}
-		return c13Cell{Back: sp.Back, I: x.Field}
+		if idx < 0 || int(idx) >= len(av.E) {
+			ip.stop("panic", "index %d out of range with length %d", idx, len(av.E))
+		}
+		return c13Copy(av.E[idx])
 	case *ssa.Field:
 		sv, ok := ip.val(vals, x.X).(c13StructV)
 		if !ok || x.Field >= len(sv.F) {
@@ -846,13 +907,25 @@ func (ip *c13Interp) eval(vals map[ssa.Value]c13V, v ssa.Value) c13V {
 		case token.MUL:
 			switch c := a.(type) {
 			case c13Cell:
-				return (*c.Back)[c.I]
+				return c13Copy((*c.Back)[c.I])
 			case c13StructPtr:
-				return c13StructV{F: append([]c13V(nil), (*c.Back)...)}
+				return c13Copy(c13StructV{F: *c.Back})
+			case c13ArrPtr:
+				return c13Copy(c13ArrV{E: *c.Back})
 			}
 		}
 		ip.stop("unsupported", "operator %s on %T", x.Op, a)
 	case *ssa.IndexAddr:
+		if ap, isArr := ip.val(vals, x.X).(c13ArrPtr); isArr {
+			idx, okI := ip.val(vals, x.Index).(c13Int)
+			if !okI {
+				ip.stop("unsupported", "array index that is not a known integer")
+			}
+			if idx < 0 || int(idx) >= len(*ap.Back) {
+				ip.stop("panic", "index %d out of range with length %d", idx, len(*ap.Back))
+			}
+			return c13Cell{Back: ap.Back, I: int(idx)}
+		}
 		s, ok := ip.val(vals, x.X).(c13Slice)
 		idx, ok2 := ip.val(vals, x.Index).(c13Int)
 		if !ok || !ok2 {
@@ -874,6 +947,8 @@ func (ip *c13Interp) eval(vals map[ssa.Value]c13V, v ssa.Value) c13V {
 		switch bv := base.(type) {
 		case c13Slice:
 			s = bv
+		case c13ArrPtr:
+			s = c13Slice{Back: bv.Back, Lo: 0, Hi: len(*bv.Back)}
 		case c13NilV:
 			empty := []c13V{}
 			s = c13Slice{Back: &empty}
@@ -2473,18 +2548,19 @@ func c13D6(c *Ctx, h *c13Handler) {
 
 // ---- D7: no replayed event is lost at the end of the replay ---------------------------
 
-// c13ChanOf: the make(chan) a channel operand denotes, nil when it is not a channel made in
+// chanOf: the make(chan) a channel operand denotes (parameters of a module function the
+// handler calls or starts with go are followed to the arguments at its only call site), nil when it is not a channel made in
 // the handler (subscription outputs, Done() channels, the listing's channel).
-func c13ChanOf(v ssa.Value) *ssa.MakeChan {
-	if o := c13Resolve(v); o.Kind == "make" && !o.Neg && o.Path == "" {
+func (sc *c13Scope) chanOf(v ssa.Value) *ssa.MakeChan {
+	if o := sc.resolve(v); o.Kind == "make" && !o.Neg && o.Path == "" {
 		return o.Make
 	}
 	return nil
 }
 
-// c13CtxOf: v is result #idx of a context.With* call (0: the context, 1: its cancel function).
-func c13CtxOf(v ssa.Value, idx int) *ssa.Call {
-	o := c13Resolve(v)
+// ctxOf: v is result #idx of a context.With* call (0: the context, 1: its cancel function).
+func (sc *c13Scope) ctxOf(v ssa.Value, idx int) *ssa.Call {
+	o := sc.resolve(v)
 	if o.Kind != "result" || o.Index != idx || o.Path != "" {
 		return nil
 	}
@@ -2494,13 +2570,13 @@ func c13CtxOf(v ssa.Value, idx int) *ssa.Call {
 	return o.Call
 }
 
-// c13DoneOf: v is X.Done() of a context made by a context.With* call; returns that call.
-func c13DoneOf(v ssa.Value) *ssa.Call {
-	o := c13Resolve(v)
+// doneOf: v is X.Done() of a context made by a context.With* call; returns that call.
+func (sc *c13Scope) doneOf(v ssa.Value) *ssa.Call {
+	o := sc.resolve(v)
 	if o.Kind != "result" || o.Index != 0 || !o.Call.Common().IsInvoke() || o.Call.Common().Method.Name() != "Done" {
 		return nil
 	}
-	return c13CtxOf(o.Call.Common().Value, 0)
+	return sc.ctxOf(o.Call.Common().Value, 0)
 }
 
 // c13SelectBody: the block executed when state k of sel is chosen.
@@ -2530,7 +2606,7 @@ func c13SelectBody(sel *ssa.Select, k int) *ssa.BasicBlock {
 
 func c13D7(c *Ctx, h *c13Handler) {
 	construct := h.Name + "+replay-handover"
-	sc := c13NewScope(h.Fn, 0) // the handler and its closures
+	sc := c13NewScope(h.Fn, 1) // the handler, its closures and the module functions it calls or starts
 	// consumers: functions that call Send on the handler's stream parameter
 	consumers := map[*ssa.Function]bool{}
 	for _, fn := range sc.funcs {
@@ -2540,7 +2616,7 @@ func c13D7(c *Ctx, h *c13Handler) {
 				if !ok || !call.Common().IsInvoke() || call.Common().Method.Name() != "Send" {
 					continue
 				}
-				if o := c13Resolve(call.Common().Value); o.Kind == "param" && o.Fn == h.Fn && o.Path == "" {
+				if o := sc.resolve(call.Common().Value); o.Kind == "param" && o.Fn == h.Fn && o.Path == "" {
 					consumers[fn] = true
 				}
 			}
@@ -2572,7 +2648,7 @@ func c13D7(c *Ctx, h *c13Handler) {
 		recvBlocks[ch][b] = true
 	}
 	isListing := func(v ssa.Value) bool {
-		o := c13Resolve(v)
+		o := sc.resolve(v)
 		return o.Kind == "result" && o.Call == h.List && o.Index == 0
 	}
 	for _, fn := range sc.funcs {
@@ -2580,21 +2656,21 @@ func c13D7(c *Ctx, h *c13Handler) {
 			for _, in := range b.Instrs {
 				switch x := in.(type) {
 				case *ssa.Send:
-					if ch := c13ChanOf(x.Chan); ch != nil {
+					if ch := sc.chanOf(x.Chan); ch != nil {
 						note(sends, ch, fn)
 					}
 				case *ssa.UnOp:
 					if x.Op != token.ARROW {
 						continue
 					}
-					if ch := c13ChanOf(x.X); ch != nil {
+					if ch := sc.chanOf(x.X); ch != nil {
 						addRecv(ch, fn, nil, b)
 					} else if consumers[fn] && isListing(x.X) {
 						directList = true
 					}
 				case *ssa.Select:
 					for _, st := range x.States {
-						ch := c13ChanOf(st.Chan)
+						ch := sc.chanOf(st.Chan)
 						switch {
 						case ch != nil && st.Dir == types.SendOnly:
 							note(sends, ch, fn)
@@ -2659,7 +2735,7 @@ func c13D7(c *Ctx, h *c13Handler) {
 						if _, isB := ci.Common().Value.(*ssa.Builtin); isB {
 							continue
 						}
-						if x := c13CtxOf(ci.Common().Value, 1); x != nil {
+						if x := sc.ctxOf(ci.Common().Value, 1); x != nil {
 							cancelled[x] = posOf(ci)
 						}
 					}
@@ -2676,7 +2752,7 @@ func c13D7(c *Ctx, h *c13Handler) {
 				if st.Dir != types.RecvOnly {
 					continue
 				}
-				x := c13DoneOf(st.Chan)
+				x := sc.doneOf(st.Chan)
 				if x == nil {
 					continue
 				}
